@@ -85,6 +85,7 @@ type oClient struct {
 	exp        []KV // the delivered events applied by the oracle itself (what a correct view holds)
 	pend       []Ev // snapshot events delivered so far
 	eosHere    bool // this subscription delivered its own snapshot
+	behindSnap bool // that snapshot carried an index smaller than a commit its content includes (open finding)
 	dupSeen    bool // the batch at the snapshot's own index has been delivered once more
 }
 
@@ -158,8 +159,10 @@ func scopeOf(ts *TS, c *oClient) string {
 		t = c.ts.T
 	}
 	switch t {
-	case THealth, TConnect:
+	case THealth:
 		return "service-health"
+	case TConnect:
+		return "service-health-connect"
 	case TConfig:
 		return "config-entry"
 	}
@@ -254,7 +257,9 @@ func oracle(steps []Step, drained bool) []Failure {
 			}
 			return "restore-keeps-publish-queue"
 		}
-		if c.snapIdx > 0 && k <= c.snapIdx && c.epoch == epoch {
+		// a batch strictly older than the snapshot; the batch at the snapshot's own index is delivered once
+		// by design (a second time is a duplicate-event of unknown cause)
+		if c.snapIdx > 0 && k < c.snapIdx && c.epoch == epoch {
 			return "subscribe-in-commit-publish-gap"
 		}
 		return "unknown"
@@ -349,8 +354,11 @@ func oracle(steps []Step, drained bool) []Failure {
 				// the direct query's own index must cover a commit that changed its result
 				if st.Queued && !sameRows(cur[q.TS], q.Rows) && q.Idx < st.Idx {
 					cause := "unknown"
-					if w := st.W; (q.TS.T == THealth || q.TS.T == TConnect) && w != nil &&
-						(w.K == "svc" || w.K == "reg" || w.K == "txn" || w.K == "dsvc" || w.K == "dnode" || w.K == "dchk") {
+					// the recorded shape: the connect query takes the max over the service names still in its
+					// result, a write that removes (or renames, or re-targets) an instance does not advance it.
+					// (the shapes on the plain health topic were repaired by e956cb5, 2c57fbe, 566301e)
+					if w := st.W; q.TS.T == TConnect && w != nil &&
+						(w.K == "svc" || w.K == "reg" || w.K == "txn" || w.K == "dsvc" || w.K == "dnode") {
 						cause = "query-index-behind-content"
 						behind[q.TS] = true
 					}
@@ -440,7 +448,7 @@ func oracle(steps []Step, drained bool) []Failure {
 			c.subscribed, c.closed, c.mustClose = true, false, ""
 			c.reqIdx, c.first, c.snapPhase = st.ReqIdx, true, st.ReqIdx == 0
 			c.delivered, c.haveStart, c.blocked, c.subStep = nil, false, false, i
-			c.eosHere, c.dupSeen = false, false
+			c.eosHere, c.dupSeen, c.behindSnap = false, false, false
 		case "unsub":
 			if c := clients[st.C]; c != nil {
 				c.subscribed = false
@@ -527,6 +535,7 @@ func oracle(steps []Step, drained bool) []Failure {
 					for _, h := range hist[c.ts] {
 						if cause == "unknown" && behind[c.ts] && h.idx > st.CIdx && sameRows(h.rows, st.View) {
 							cause = "query-index-behind-content"
+							c.behindSnap = true
 						}
 					}
 					fail(st.C, "view-mismatch", cause, fmt.Sprintf("after snapshot@%d view %v, query at that index %v", st.CIdx, st.View, want))
@@ -583,6 +592,11 @@ func oracle(steps []Step, drained bool) []Failure {
 				if want := contentAt(c.ts, st.CIdx); !sameRows(want, st.View) {
 					if cause == "unknown" {
 						cause = viewCause(c, st.View, want, st.CIdx)
+					}
+					// the one re-delivered batch at the index of a snapshot already known to carry an
+					// understated index: the view is still ahead of the content recorded at that index
+					if cause == "unknown" && c.behindSnap && st.OIdx == c.snapIdx {
+						cause = "query-index-behind-content"
 					}
 					fail(st.C, "view-mismatch", cause,
 						fmt.Sprintf("after event@%d (snapshot@%d) view %v, query at that index %v", st.CIdx, c.snapIdx, st.View, want))
